@@ -82,3 +82,129 @@ def alpha_set(rep, prog, rule):
                                                          sorted(s ^ ref)))
     for st, ms in partial:
         rep.bad(rule, "partial|%s" % st, "", "AlphaMulDiv for %s overrides only %s" % (st, ms))
+
+
+# ---------------------------------------------------------------------------------------------
+# which pixels an alpha division treats as transparent
+_EQ_IMM = {0, 4, 8, 12, 16, 20, 24, 28}        # _CMP_{EQ,NEQ}_{OQ,UQ,OS,US}
+
+
+def _is_zero_vec(e):
+    from .lanepair import strip
+    e = strip(e)
+    if e[0] in ("call", "callat"):
+        n = e[1] if e[0] == "call" else e[2]
+        a = e[2] if e[0] == "call" else e[3]
+        if "setzero" in n:
+            return True
+        if ("set1" in n or "set_ps1" in n or "splat" in n or "vdup" in n) and len(a) == 1:
+            c = strip(a[0])
+            return c[0] == "const" and c[1] == 0
+    return False
+
+
+def zero_guard(rep, prog, rule):
+    import re
+    from ..sym import fmt, short
+    from .lanepair import strip
+    rep.rule(rule, "the only pixels an alpha division sets to colour 0 instead of dividing are those "
+             "with alpha = 0: every data-dependent branch of the portable divide routines and every "
+             "comparison intrinsic of the SIMD divide primitives is an exact test against zero "
+             "(is_zero, == 0, != 0, cmpeq/cmpneq with a zero vector, vceqz); an ordering comparison "
+             "or a comparison with another constant on floating-point alpha is a violation (it "
+             "zeroes or divides a different set of pixels than the other back-ends), on integer "
+             "lanes it is undecided")
+    n = 0
+    for f in sorted(prog.fns.values(), key=lambda x: x.id):
+        m = re.match(r"^alpha::(u8|u16|f32)x(\d)::(native|sse4|avx2|neon|wasm32)::divide_alpha", f.name)
+        if not m:
+            continue
+        is_float = m.group(1) == "f32"
+        alpha_ix = int(m.group(2)) - 1
+        sym = Sym(f)
+        if m.group(3) == "native":
+            seen = set()
+            for (a, b, cond, v) in sym.edge_facts():
+                c = strip(cond)
+                t = fmt(c)
+                if t in seen or c[0] == "discr" or "len(" in t or c[0] == "ovf":
+                    continue
+                seen.add(t)
+                rep.touch(f)
+                n += 1
+                key = "%s|%s" % (f.name, re.sub(r"@bb\d+", "", t)[:60])
+                loc = f.block_loc(a) if hasattr(f, "block_loc") else f.loc
+                what = None
+                if c[0] in ("call", "callat"):
+                    nm = c[1] if c[0] == "call" else c[2]
+                    args = c[2] if c[0] == "call" else c[3]
+                    if nm == "is_zero" and len(args) == 1:
+                        what = ("zero", args[0])
+                elif c[0] == "bin" and c[1] in ("Eq", "Ne"):
+                    k0 = strip(c[3])
+                    if k0[0] == "const" and k0[1] == 0:
+                        what = ("zero", c[2])
+                    elif k0[0] == "const":
+                        what = ("other", "alpha is compared with %r" % (k0[1],))
+                elif c[0] == "bin" and c[1] in ("Lt", "Le", "Gt", "Ge"):
+                    k0 = strip(c[3])
+                    if not is_float and k0[0] == "const" and (c[1], k0[1]) in (("Lt", 1), ("Le", 0), ("Gt", 0), ("Ge", 1)):
+                        what = ("zero", c[2])
+                    elif is_float or (k0[0] == "const" and k0[1] > 1):
+                        what = ("other", "the guard is the ordering test %s" % re.sub(r"@bb\d+", "", t)[:80])
+                if what is None:
+                    rep.unk(rule, key, loc, "data-dependent branch not recognised as a test of alpha: %s" % t[:100])
+                elif what[0] == "other":
+                    rep.bad(rule, key + "|not-zero-test", loc,
+                            "%s: %s; only alpha = 0 may be treated as transparent" % (f.name, what[1]))
+                else:
+                    mm = re.search(r"\[(\d+)\]$", fmt(strip(what[1])))
+                    if mm and int(mm.group(1)) != alpha_ix:
+                        rep.bad(rule, key + "|component", loc,
+                                "%s: the transparency test reads component %s, alpha is component %d"
+                                % (f.name, mm.group(1), alpha_ix))
+                    else:
+                        rep.ok(rule, key, loc, "exact zero test of %s" % fmt(what[1])[:40])
+            continue
+        for c in f.calls():
+            nm = c.method or short(c.name)
+            kind = None
+            if re.match(r"^_mm(256)?_cmp(eq|neq)_(ps|epi\d+)$", nm):
+                kind = "eq"
+            elif re.match(r"^_mm(256)?_cmp_ps$", nm):
+                cg = [x for x in c.cargs() if isinstance(x, int)]
+                kind = "eq" if cg and cg[0] in _EQ_IMM else ("ord-ps" if cg else None)
+                if kind is None:
+                    kind = "unknown"
+            elif re.match(r"^_mm(256)?_cmp(lt|le|gt|ge|nlt|nle|ngt|nge|ord|unord)_ps$", nm):
+                kind = "ord-ps"
+            elif re.match(r"^_mm(256)?_cmp(gt|lt)_epi\d+$", nm):
+                kind = "ord-int"
+            elif re.match(r"^vceqzq?_[usf]\d+$", nm):
+                kind = "eqz"
+            elif re.match(r"^vceqq?_[usf]\d+$", nm) or re.match(r"^[iuf]\d+x\d+_(eq|ne)$", nm):
+                kind = "eq"
+            elif re.match(r"^vc(gt|ge|lt|le)z?q?_([usf])\d+$", nm) or re.match(r"^[iuf]\d+x\d+_(gt|ge|lt|le)$", nm):
+                kind = "ord-ps" if (re.search(r"_f\d+$", nm) or nm.startswith("f")) else "ord-int"
+            if kind is None:
+                continue
+            rep.touch(f)
+            n += 1
+            key = "%s|%s" % (f.name, nm)
+            args = [sym.operand(a, (c.bb, "term")) for a in c.args]
+            if kind == "eqz":
+                rep.ok(rule, key, c.at, "compare-equal-to-zero")
+            elif kind == "eq":
+                if any(_is_zero_vec(a) for a in args):
+                    rep.ok(rule, key, c.at, "equality comparison with a zero vector")
+                else:
+                    rep.unk(rule, key, c.at, "equality comparison, the other operand is not recognised as zero")
+            elif kind == "ord-ps" and is_float:
+                rep.bad(rule, key + "|not-zero-test", c.at,
+                        "%s: %s is an ordering comparison on floating-point pixels; only alpha = 0 may "
+                        "be treated as transparent (negative and tiny alphas are divided by the "
+                        "portable code)" % (f.name, nm))
+            else:
+                rep.unk(rule, key, c.at, "ordering comparison %s on lanes that hold non-negative "
+                        "integers; equivalence with != 0 is not decided" % nm)
+    rep.floor(rule, "transparency tests in the divide routines", n, 4)
